@@ -173,6 +173,10 @@ def monitors(spec, M, ref, outs):
         same = all(q[k] == rp[k] for k in ('version', 'crc', 'dest', 'src', 'rpt', 'time', 'seq', 'lifetime'))
         if not same or q['flags'] != (rp['flags'] | 1) or q['total'] != len(P):
             bad.append(('C05:fields', 'fragment primary block: identity/flags/total length wrong'))
+        if not spec.get('as_source', True) and ((q['time'], q['seq'], q['lifetime']) != (spec['time'], spec['seq'], spec['lifetime'])):
+            bad.append(('C05:forwarded-fragment-identity-changed',
+                        'fragment of a forwarded bundle: creation timestamp/lifetime (%s,%s,%s) differ from the received (%s,%s,%s)'
+                        % (q['time'], q['seq'], q['lifetime'], spec['time'], spec['seq'], spec['lifetime'])))
     # blocks
     def strip(b):
         return (b['type'], b['num'], b['flags'], b['crc'], None if b['num'] == 1 else b['btsd'])
@@ -191,8 +195,8 @@ def ref_matches_spec(spec, ref):
     q = p['primary']
     ok = (q['flags'] == spec['flags'] and q['crc'] == spec['crc'] and q['dest'] == [1, spec['dest'][4:]]
           and q['src'] == [1, spec['src'][4:]]
-          and (spec['time'] == 0 or (q['time'], q['seq']) == (spec['time'], spec['seq']))
-          and (spec['lifetime'] == 0 or q['lifetime'] == spec['lifetime']))
+          and ((spec['time'] == 0 and spec.get('as_source', True)) or (q['time'], q['seq']) == (spec['time'], spec['seq']))
+          and ((spec['lifetime'] == 0 and spec.get('as_source', True)) or q['lifetime'] == spec['lifetime']))
     got = [(b['type'], b['num'], b['flags'], b['crc'], None if b['btsd'] is None else b['btsd'].hex()) for b in p['blocks']]
     want = [(b['type'], b['num'], b['flags'], b['crc'], b['btsd']) for b in spec['blocks']]
     return ok and got == want and fl.check_crcs(ref)
@@ -225,7 +229,7 @@ def run_cases(cases):
         for m in [None] + list(mtus):
             clock[0] += 17
             reals.append(rig.send(spec, m, now_ms=clock[0]))
-            reqs.append({'op': 'frag.send', 'bundle': sj, 'mtu': m, 'now': clock[0]})
+            reqs.append({'op': 'frag.send', 'bundle': sj, 'mtu': m, 'now': clock[0], 'as_source': spec.get('as_source', True)})
         outs = lean.driver(reqs)
         for m, real, mo in zip([None] + list(mtus), reals, outs):
             res['n'] += 1
@@ -259,6 +263,10 @@ def run_cases(cases):
                 cnt('flag:no-fragment')
             if spec['flags'] & 1:
                 cnt('flag:is-fragment')
+            if not spec.get('as_source', True):
+                cnt('forwarded(as_source=False)')
+                if spec['time'] == 0:
+                    cnt('forwarded:creation-time-0' + (':fragmented' if kind == 'frags' else ''))
             if viol:
                 cnt('monitor:' + viol[0][0])
             res['nontrivial'].append((json.dumps([L, m, spec['crc'], len(spec['blocks']), spec['flags'], bool(spec.get('wire'))]), kind != 'nofrag'))
@@ -295,6 +303,15 @@ def gen_cases(chk):
             flags = rng.choice([0, 0, 0, 0x40, 0x20000])
             wire = rng.random() < 0.15
             spec = mk_spec(L, crcs, ext, flags=flags, wire=wire, salt=rng.randrange(250))
+            if rng.random() < (0.6 if wire else 0.1):
+                # a forwarded bundle (send_bundle(ctr, as_source=False)); creation time 0 identified by its
+                # sequence number, lifetime 0 and null report-to must stay as received, also in every fragment
+                spec['as_source'] = False
+                if rng.random() < 0.7:
+                    spec['time'] = 0
+                    spec['seq'] = rng.randrange(1, 100000)
+                if rng.random() < 0.3:
+                    spec['lifetime'] = 0
             # orig size by the independent formula is not needed exactly: measure with the reader-free estimate
             cases.append((spec, None, w))
         # unchanged-by-flag cases
@@ -395,7 +412,73 @@ def run(chk):
             chk.violation(sig, what, rep)
     chk.cov['traces_validated_against_impl'] = sum(r['n'] for r in results)
     run_security(chk)
+    run_forward_path(chk)
     return
+
+
+def run_forward_path(chk):
+    ''' The real forwarding path (CL -> recv_bundle -> rx route 'forward' -> _do_fwd -> send_bundle(as_source=False)
+    -> _create): implementation-only monitors (the blocks _do_fwd adds are C11's subject). A decoded bundle,
+    also with creation time 0 + sequence number, must be fragmented within the MTU, tile its payload, and every
+    fragment must keep the received source / creation timestamp / lifetime. '''
+    rng = chk.rng
+    n = 40 if chk.tier == 'quick' else 400
+    rig = fl.Rig(node_id='dtn://fwd/', rx_action='forward')
+    for i in range(n):
+        L = rng.choice([60, 100, 255, 256, 300, 1000])
+        zero = rng.random() < 0.6
+        spec = {'flags': 0, 'crc': rng.choice([0, 1, 2]), 'dest': 'dtn://dst/svc', 'src': 'dtn://src/', 'rpt': None,
+                'time': 0 if zero else 5000 + i, 'seq': 1000 + i, 'lifetime': rng.choice([0, 86400000]) if zero else 86400000,
+                'blocks': [{'type': 7, 'num': 2, 'flags': 0, 'crc': 0, 'btsd': '1903e8'},
+                           {'type': 1, 'num': 1, 'flags': 0, 'crc': rng.choice([0, 1, 2]), 'btsd': payload_hex(L, i % 250)}]}
+        data = fl.encode_bundle(spec)
+        M = rng.randrange(len(data) - L + 40, len(data) + 30)
+        rig.out = []
+        rig.set_mtu(M)
+        esc = rig.recv(data)
+        idle = rig.drain()
+        outs = list(rig.out)
+        rep = {'forward_path': True, 'bundle': data.hex(), 'mtu': M}
+        chk.case(['fwd', L, M, spec['crc'], zero], nontrivial=True)
+        chk.count('forward-path:' + ('creation-time-0' if zero else 'timestamped') + (':fragmented' if len(outs) > 1 else ''))
+        for sig, what in forward_monitor(spec, M, outs):
+            chk.count('monitor:' + sig)
+            chk.violation(sig, what, rep)
+
+
+def forward_monitor(spec, M, outs):
+    bad = []
+    P = bytes.fromhex([b for b in spec['blocks'] if b['num'] == 1][0]['btsd'])
+    if not outs:
+        return [('C05:forwarded-not-sent', 'a forwardable bundle produced no transmission')]
+    cat = b''
+    off = 0
+    for o in outs:
+        try:
+            p = fl.read_bundle(o)
+        except fl.ParseError as err:
+            return [('C05:output-unreadable', str(err))]
+        q = p['primary']
+        if len(o) > M:
+            bad.append(('C05:forwarded-oversized', 'forwarding: %d octets > MTU %d (%s)' % (len(o), M, 'fragment' if q['flags'] & 1 else 'whole bundle')))
+        if (q['time'], q['seq'], q['lifetime']) != (spec['time'], spec['seq'], spec['lifetime']) or q['src'] != [1, spec['src'][4:]]:
+            bad.append(('C05:forwarded-fragment-identity-changed',
+                        'forwarding: creation timestamp/lifetime (%s,%s,%s) differ from the received (%s,%s,%s)'
+                        % (q['time'], q['seq'], q['lifetime'], spec['time'], spec['seq'], spec['lifetime'])))
+        pb = [b for b in p['blocks'] if b['num'] == 1]
+        if len(pb) != 1 or pb[0]['btsd'] is None:
+            bad.append(('C05:impossible-sends-altered', 'forwarding: payload data missing'))
+            continue
+        if q['flags'] & 1:
+            if q['fragoff'] != off or q['total'] != len(P):
+                bad.append(('C05:tiling', 'forwarding: offset/total wrong'))
+            off += len(pb[0]['btsd'])
+        cat += pb[0]['btsd']
+        if not fl.check_crcs(o):
+            bad.append(('C05:fragment-crc-invalid', 'forwarding: invalid CRC'))
+    if cat != P:
+        bad.append(('C05:tiling', 'forwarding: transmitted payload octets differ from the received payload'))
+    return bad
 
 
 def security_monitor(spec, M, outs):
@@ -447,6 +530,15 @@ def run_security(chk):
 def replay(chk, path):
     obj = json.load(open(path))
     rep = obj.get('replay', obj)
+    if rep.get('forward_path'):
+        rig = fl.Rig(node_id='dtn://fwd/', rx_action='forward')
+        rig.set_mtu(rep['mtu'])
+        rig.recv(bytes.fromhex(rep['bundle']))
+        rig.drain()
+        for o in rig.out:
+            q = fl.read_bundle(o)['primary']
+            print('sent %d octets (MTU %s): time=%s seq=%s lifetime=%s fragoff=%s' % (len(o), rep['mtu'], q['time'], q['seq'], q['lifetime'], q.get('fragoff')))
+        return 0
     spec, m = rep['spec'], rep['mtu']
     rig = fl.Rig()
     if rep.get('security'):
